@@ -108,6 +108,8 @@ static const PmcConfig CFG[] = {
     {"L0U,L1U,L4U",        3, {0,0}, {0,0}, {0,0}, {0,0}, "one vCPU"},
     {"L?U,L?yU,yL?U",      3, {0,0}, {0,0}, {0,0}, {0,0}, "one vCPU, every triple of ranges from the alphabet"},
     {"L?A?U,L?U",          3, {0,0}, {0,0}, {0,0}, {0,0}, "one vCPU, every (range, adjusted range, other range)"},
+    {"L?yA?yU,L?yyU",      3, {0,0}, {0,0}, {0,0}, {0,0}, "one vCPU: adjust while the other range is held (every triple)"},
+    {"L?yA?yU,L?yyU,L?yyU",2, {0,0}, {0,0}, {0,0}, {0,0}, "adjust between two held neighbours (every quadruple)"},
     {"L?U|L?U",            3, {1,1}, {0,0}, {0,0}, {0,0}, "two vCPUs, every pair of ranges, one preemption"},
     {"L?A?U|L?U",          2, {1,1}, {0,0}, {0,0}, {0,0}, "two vCPUs, adjust against every other range"},
     {"L3U,L0U|L1U,L2U",    2, {1,2}, {0,0}, {0,0}, {0,0}, "four threads"},
